@@ -8,7 +8,7 @@ import ecc_file_x as fx
 import ecc_scen as es
 import ecc_util as eu
 
-LEAN_MODULES = ["Pff.Props.C03", "Pff.Props.RunC", "Pff.Props.Bridge", "Pff.Props.NonVacuity"]
+LEAN_MODULES = ["Pff.Props.C03", "Pff.Props.RunC", "Pff.Props.Bridge", "Pff.Props.NonVacuity", "Pff.Props.Path", "Pff.Props.PathRun"]
 PROP_MODULE = "Pff.Props.C03"
 THEOREMS = ["Pff.Ecc.C03_whole_file_partial", "Pff.Ecc.C03_header_file_partial", "Pff.Ecc.C03_exit",
             "Pff.Layout.C10_agree_whole", "Pff.Layout.C10_agree_header",
@@ -16,7 +16,9 @@ THEOREMS = ["Pff.Ecc.C03_whole_file_partial", "Pff.Ecc.C03_header_file_partial",
             "Pff.Bridge.C03_clean_ops_A",
             "Pff.Bridge.C03_clean_ops_B",
             "Pff.NonVacuity.toy_premises",
-            "Pff.NonVacuity.toy_run"]
+            "Pff.NonVacuity.toy_run",
+            "Pff.Path.C03_run_relocated", "Pff.Path.PATH_abspath_good", "Pff.Path.PATH_gen_root_independent",
+            "Pff.Path.PATH_lookup_relocated", "Pff.Path.PATH_relFS_nodup", "Pff.Path.PATH_single_file"]
 MODELLED = [("pyFileFixity/header_ecc.py", "main"), ("pyFileFixity/header_ecc.py", "entry_assemble"), ("pyFileFixity/header_ecc.py", "compute_ecc_hash"),
             ("pyFileFixity/structural_adaptive_ecc.py", "main"), ("pyFileFixity/structural_adaptive_ecc.py", "stream_entry_assemble"),
             ("pyFileFixity/structural_adaptive_ecc.py", "stream_compute_ecc_hash")]
@@ -122,6 +124,14 @@ def run(oc, tier, seed, model_available, escalate):
     gl, gi = fx.gen_cases(rng, (30 if tier == "quick" else 400) * (2 if escalate else 1), d, oc)
     lines += gl
     impl += gi
+    # ---- path layer: the repo's fullpath / path2unix / recwalk / relpath_posix and the os.path functions under them vs the Lean model
+    # (Pff.Path), and the relocation statement on the real functions
+    import path_x
+    pl, pi, pbad = path_x.cases(rng, (400 if tier == "quick" else 6000) * (2 if escalate else 1), common.scratch(), oc)
+    lines += pl
+    impl += pi
+    for b_ in pbad[:3]:
+        oc.violations.append({"input": {k: v for k, v in b_.items() if k != "what"}, "what": b_["what"]})
     shutil.rmtree(d, ignore_errors=True)
     if model_available:
         model, err = common.run_driver(lines)
